@@ -1616,6 +1616,36 @@ fn run_c13(out: &mut Out, rng: &mut Rng, work: &str) -> BTreeMap<String, u64> {
 			}
 		}
 	}
+	let mut nrd30_probe_out: Option<usize> = None;
+	// ---- an NRD kernel whose relative height (30) is larger than the cut-through horizon (20): its
+	// duplicate 23 blocks later must still be refused, also by a node that restarted in between
+	// (subject s4 restarts after every block)
+	{
+		let tip = *g.valid.iter().max_by_key(|i| (g.kit.blks[**i].work, **i)).unwrap();
+		let h0 = g.kit.blks[tip].height;
+		let plains: Vec<usize> = g.spendable(tip, h0 + 1).into_iter().filter(|o| !g.kit.outs[*o].coinbase).collect();
+		nrd30_probe_out = plains.get(2).cloned();
+		if plains.len() >= 2 {
+			if let Some(x) = g.add_scripted(tip, 1, &[spend(plains[0], &g, KSpec::Nrd(3, 30, 9))], "nrd30:first") {
+				if g.kit.blks[x].valid {
+					let mut cur = x;
+					let mut ok = true;
+					for _ in 0..22 {
+						match g.add_scripted(cur, 1, &[], "nrd30:spacer") {
+							Some(id) if g.kit.blks[id].valid => cur = id,
+							_ => {
+								ok = false;
+								break;
+							}
+						}
+					}
+					if ok {
+						g.add_scripted(cur, 1, &[spend(plains[1], &g, KSpec::Nrd(3, 30, 9))], "nrd30:duplicate-after-23-of-30");
+					}
+				}
+			}
+		}
+	}
 	// ---- a short but heavy fork off height 1, announced header-first while the body chain grows:
 	// the header head sits on another fork than every block delivered afterwards
 	let heavy_short = match g.add_scripted(trunk[1], 500, &[], "fork:heavy-short") {
@@ -1671,11 +1701,47 @@ fn run_c13(out: &mut Out, rng: &mut Rng, work: &str) -> BTreeMap<String, u64> {
 			}
 		}
 	}
+	if let Some(o) = nrd30_probe_out {
+		// spends an output that stays unspent on the chain carrying the rel-30 kernel
+		if let Ok(tx) = g.kit.build_tx(&spend(o, &g, KSpec::Nrd(3, 30, 9))) {
+			probes.push(("nrd-slot9-rel30".into(), tx));
+		}
+	}
 	for (slot, rel) in [(0usize, 3u64), (1, 3), (1, 2)] {
 		if let Some(o) = plain.get(3 + slot) {
 			if let Ok(tx) = g.kit.build_tx(&spend(*o, &g, KSpec::Nrd(3, rel, slot))) {
 				probes.push((format!("nrd-slot{}-rel{}", slot, rel), tx));
 			}
+		}
+	}
+	// aggregated (multi-kernel) probes: a kernel locked far ahead together with a plain kernel, in
+	// both orders the kernels can sort in (kernels sort by hash)
+	if let Some(o1) = plain.get(6) {
+		if let Ok(locked) = g.kit.build_tx(&spend(*o1, &g, KSpec::HeightLocked(3, 60))) {
+			let mut have_first = false;
+			let mut have_last = false;
+			for k in 0..40usize {
+				if have_first && have_last || plain.len() < 8 {
+					break;
+				}
+				let j = 7 + k % (plain.len() - 7);
+				let fee = 3 + (k as u64 / (plain.len() as u64 - 7));
+				let v = g.kit.outs[plain[j]].value;
+				let spec = TxSpec { inputs: vec![plain[j]], outputs: vec![(v - fee, None)], kernel: KSpec::Plain(fee) };
+				if let Ok(ptx) = g.kit.build_tx(&spec) {
+					if let Ok(agg) = grin_core::core::transaction::aggregate(&[locked.clone(), ptx]) {
+						let first_locked = matches!(agg.kernels()[0].features, grin_core::core::KernelFeatures::HeightLocked { .. });
+						if first_locked && !have_first {
+							have_first = true;
+							probes.push(("aggregate-locked-kernel-sorts-first".into(), agg));
+						} else if !first_locked && !have_last {
+							have_last = true;
+							probes.push(("aggregate-locked-kernel-sorts-last".into(), agg));
+						}
+					}
+				}
+			}
+			g.stat(&format!("c13:aggregate-probes:locked-first={}:locked-last={}", have_first, have_last));
 		}
 	}
 	g.describe_new(out);
